@@ -15,34 +15,35 @@ MInit1 == /\ ctl = [dir |-> Dir0, en |-> FALSE, up |-> FALSE, infl |-> 0, pc |->
           /\ flt = [s |-> "permit", x |-> {}, max |-> 1000000000]
           /\ gh = [acc |-> [t \in Threads |-> <<>>], old |-> <<>>, rej |-> {}, verd |-> {}, closed |-> <<>>, lastmax |-> 0]
           /\ nk = [t \in Threads |-> 0] /\ nctl = 0
-Ctl(o, A) == o \in CtlOps /\ nctl < MaxCtl /\ A /\ nctl' = nctl + 1 /\ UNCHANGED nk
-Sil(A) == A /\ UNCHANGED <<nk, nctl>>
+CtlOk(o) == o \in CtlOps /\ nctl < MaxCtl
+Cnt == nctl' = nctl + 1 /\ UNCHANGED nk
+Same == UNCHANGED <<nk, nctl>>
 
-MPrefix == \E ok \in BOOLEAN : Ctl("prefix", Prefix(ok))
-MRm == \E w \in Tables : Ctl("rm", Rm(w))
-MEnable == Ctl("enable", EnableBegin)
-MDisable == Ctl("disable", DisableBegin)
-MSet == \/ \E s \in {"permit", "reject"} : s # flt.s /\ Ctl("strat", SetBegin("strat", s))
-        \/ \E x \in ExSets : x # flt.x /\ Ctl("exempt", SetBegin("exempt", x))
-        \/ \E m \in Maxes : m # flt.max /\ Ctl("max", SetBegin("max", m))
-ME2 == Sil(E2)
-MD1 == Sil(D1)
-MD2 == Sil(D2)
-MD3 == Sil(D3)
-MS1 == Sil(S1)
+MPrefix == \E ok \in BOOLEAN : /\ CtlOk("prefix") /\ Prefix(ok) /\ Cnt
+MRm == \E w \in Tables : /\ CtlOk("rm") /\ Rm(w) /\ Cnt
+MEnable == /\ CtlOk("enable") /\ EnableBegin /\ Cnt
+MDisable == /\ CtlOk("disable") /\ DisableBegin /\ Cnt
+MSetStrat == \E s \in {"permit", "reject"} : /\ s # flt.s /\ CtlOk("strat") /\ SetBegin("strat", s) /\ Cnt
+MSetExempt == \E x \in ExSets : /\ x # flt.x /\ CtlOk("exempt") /\ SetBegin("exempt", x) /\ Cnt
+MSetMax == \E m \in Maxes : /\ m # flt.max /\ CtlOk("max") /\ SetBegin("max", m) /\ Cnt
+ME2 == /\ E2 /\ Same
+MD1 == /\ D1 /\ Same
+MD2 == /\ D2 /\ Same
+MD3 == /\ D3 /\ Same
+MS1 == /\ S1 /\ Same
 MCommit == \E t \in Threads, nm \in NameSet, m \in ModSet, ts \in TsSet :
              /\ nk[t] < MaxK /\ nk' = [nk EXCEPT ![t] = @ + 1] /\ UNCHANGED nctl
              /\ CBegin(t, [t |-> t, k |-> nk[t] + 1, nm |-> nm, mod |-> m, ts |-> ts, dur |-> nk[t] + 1])
-MC1 == \E t \in Threads : Sil(C1(t))
-MC2 == \E t \in Threads : Sil(C2(t))
-MC3 == \E t \in Threads : Sil(C3(t))
-MC5 == \E t \in Threads : Sil(C5(t))
-MFront == \E t \in Threads, sz \in Sizes : Sil(Front(t, sz))
-MPop == \E n \in 1..Cap : Sil(Pop(n))
-MProc == Sil(Proc)
-MBatchEnd == Sil(BatchEnd)
-MNext == MPrefix \/ MRm \/ MEnable \/ MDisable \/ MSet \/ ME2 \/ MD1 \/ MD2 \/ MD3 \/ MS1 \/ MCommit \/ MC1 \/ MC2 \/ MC3 \/ MC5
-         \/ MFront \/ MPop \/ MProc \/ MBatchEnd
+MC1 == \E t \in Threads : /\ C1(t) /\ Same
+MC2 == \E t \in Threads : /\ C2(t) /\ Same
+MC3 == \E t \in Threads : /\ C3(t) /\ Same
+MC5 == \E t \in Threads : /\ C5(t) /\ Same
+MFront == \E t \in Threads, sz \in Sizes : /\ Front(t, sz) /\ Same
+MPop == \E n \in 1..Cap : /\ Pop(n) /\ Same
+MProc == /\ Proc /\ Same
+MBatchEnd == /\ BatchEnd /\ Same
+MNext == MPrefix \/ MRm \/ MEnable \/ MDisable \/ MSetStrat \/ MSetExempt \/ MSetMax \/ ME2 \/ MD1 \/ MD2 \/ MD3 \/ MS1
+         \/ MCommit \/ MC1 \/ MC2 \/ MC3 \/ MC5 \/ MFront \/ MPop \/ MProc \/ MBatchEnd
 MSpec == MInit1 /\ [][MNext]_mvars
 Sym == Permutations(Threads)
 =============================================================================
